@@ -529,8 +529,53 @@ func checkNetconfOpenOrder(c *Ctx, r *Report) {
 			okDefer = true
 		}
 	}
+	okExplicit := false
+	if !okDefer {
+		// the same clean-up written out: after the channel opened, every return of an error follows a Channel.Close
+		chOpenCall := seq[0].outer
+		var chErr ssa.Value
+		if call, ok := chOpenCall.(*ssa.Call); ok {
+			if es := errResultsOf(call); len(es) == 1 {
+				chErr = es[0]
+			} else if isErrorType(call.Type()) {
+				chErr = call
+			}
+		}
+		if chErr != nil {
+			ef := func(b *ssa.BasicBlock, si int) bool {
+				// do not follow the edge on which opening the channel itself failed (it has cleaned up after itself)
+				if x, nonNilOnTrue, ok := nilCheck(ifCond(b)); ok && x == chErr {
+					if nonNilOnTrue {
+						return si == 1
+					}
+					return si == 0
+				}
+				return true
+			}
+			isClose := func(in ssa.Instruction) bool {
+				ci, ok := in.(ssa.CallInstruction)
+				return ok && ci.Common().StaticCallee() == chClose
+			}
+			rr := reachFrom(open, chOpenCall, isClose, ef)
+			okExplicit = true
+			nClose := 0
+			for in := range rr.visited {
+				if isClose(in) {
+					nClose++
+				}
+				if ret, ok := in.(*ssa.Return); ok && len(ret.Results) == 1 && !isNilConst(ret.Results[0]) {
+					okExplicit = false
+				}
+			}
+			if nClose == 0 {
+				okExplicit = false
+			}
+		}
+	}
 	if okDefer {
 		r.OK(rule, "failure closes the channel", c.Pos(open.Pos()), "deferred Channel.Close under reterr != nil, installed before the capabilities exchange")
+	} else if okExplicit {
+		r.OK(rule, "failure closes the channel", c.Pos(open.Pos()), "every error return after the channel opened follows an explicit Channel.Close")
 	} else {
 		r.Bad(rule, "failure closes the channel", c.Pos(open.Pos()), "Open does not unconditionally close the channel when it returns an error after the channel was opened (deferred close guarded by exactly `reterr != nil` not found before the capabilities exchange): transport and reader are leaked on a failed negotiation")
 	}
